@@ -48,7 +48,7 @@ type Ev struct {
 type Token struct {
 	Symbol, Name string
 	Decimals     int
-	Mode         string // ok | http500 | two-results | m1-failed | m2-failed | wrong-types | long | all-failed
+	Mode         string // ok | http500 | two-results | m1-failed | m2-failed | wrong-types | long | all-failed | m{0,1,2}-no-return | m0-two-returns
 }
 
 type LogEntry struct {
@@ -372,6 +372,17 @@ func (s *Sim) multicall(addr string) (int, interface{}) {
 		return 200, map[string]interface{}{"results": []interface{}{failed(), failed(), failed()}}
 	case "wrong-types":
 		return 200, map[string]interface{}{"results": []interface{}{succ(dec), succ(Raw("Bool", true)), succ(sym)}}
+	case "m0-no-return", "m1-no-return", "m2-no-return", "m0-two-returns": // the call succeeds but does not return exactly one value
+		res := []interface{}{succ(sym), succ(name), succ(dec)}
+		i := int(t.Mode[1] - '0')
+		odd := succ(sym)
+		if strings.HasSuffix(t.Mode, "no-return") {
+			odd["returns"] = []interface{}{}
+		} else {
+			odd["returns"] = []interface{}{sym, name}
+		}
+		res[i] = odd
+		return 200, map[string]interface{}{"results": res}
 	case "long":
 		return 200, map[string]interface{}{"results": []interface{}{succ(ByteVec(make([]byte, 200))), succ(name), succ(U256("300"))}}
 	}
